@@ -106,6 +106,28 @@ func (e *Env) graphRoles() *GraphRoles {
 		return g
 	}
 	adj := map[string]bool{}
+	// the adjacency maps may live in a small struct of their own that the graph holds
+	// (`g.edges.upstream`): the types of the graph's struct-valued fields are looked into
+	adjOwner := map[string]bool{}
+	for i := 0; i < st.NumFields(); i++ {
+		ft := derefT(st.Field(i).Type())
+		nt, isN := ft.(*types.Named)
+		if !isN || nt.Obj().Pkg() == nil || nt.Obj().Pkg() != gt.Object().Pkg() {
+			continue
+		}
+		if inner, isS := nt.Underlying().(*types.Struct); isS {
+			for k := 0; k < inner.NumFields(); k++ {
+				if mt, isM := inner.Field(k).Type().Underlying().(*types.Map); isM {
+					if sl, ok := mt.Elem().Underlying().(*types.Slice); ok {
+						if b, ok := sl.Elem().Underlying().(*types.Basic); ok && b.Info()&types.IsInteger != 0 {
+							adj[inner.Field(k).Name()] = true
+							adjOwner[nt.Obj().Name()] = true
+						}
+					}
+				}
+			}
+		}
+	}
 	for i := 0; i < st.NumFields(); i++ {
 		f := st.Field(i)
 		switch t := f.Type().Underlying().(type) {
@@ -133,10 +155,14 @@ func (e *Env) graphRoles() *GraphRoles {
 					continue
 				}
 				mp, ok1 := e.C.PathOf(mu.Map)
-				if !ok1 || len(mp.Fields) != 1 || !adj[mp.Fields[0]] || !strings.HasSuffix(ir.NamedType(mp.Root.Type()), ".ExecutionGraph") {
+				if !ok1 || len(mp.Fields) == 0 || len(mp.Fields) > 2 || !adj[mp.Fields[len(mp.Fields)-1]] {
 					continue
 				}
-				u := EdgeUpdate{Site: mu, Field: mp.Fields[0]}
+				rootT := typesName(derefT(mp.Root.Type()))
+				if !(rootT == "ExecutionGraph" || (len(mp.Fields) == 1 && adjOwner[rootT])) {
+					continue
+				}
+				u := EdgeUpdate{Site: mu, Field: mp.Fields[len(mp.Fields)-1]}
 				if kp, ok2 := e.C.PathOf(mu.Key); ok2 && kp.Suffix("id") {
 					u.Key = kp.Root
 				}
